@@ -268,6 +268,12 @@ fn run_one_policy(s: &Scn12, pos: Option<(usize, &Corruption)>, cov: &mut Cov, v
         };
         let result = match call {
             Ok(r) => r,
+            // a corrupted-but-decodable program can contain the simulator's own crash statement
+            // (`Stmt::Fault`): that is app code panicking, not the bridge - the copy ends unjudged
+            Err((_, msg)) if msg.contains("injected task fault") => {
+                cov.bump("corrupted_program_crashes_by_itself");
+                return Ok(());
+            }
             Err((loc, msg)) => return Err(viol(&format!("panic:{loc}"), format!("{}: {msg}", what()))),
         };
         // never allocates without bound
